@@ -101,7 +101,7 @@ META["C01"] = {
 
 META["C02"] = {
     "title": "After unsubscribe() returns the subscriber is never called again",
-    "rule": "cases = (random pipeline biased to scheduler-using operators, timed scripts, schedule seed, cut step, unsubscribe() | guard drop). A dry run finds the schedule length and the step of the first terminal; the cut is then placed uniformly before the terminal (5/6) or anywhere (1/6). After the cut the explorer keeps going: remaining events are injected, every pending timer fired, every ready task run. Non-trivial: cut before the terminal while a timer was pending, a task ready, or script events still to come; distinct = hash(pipeline, scripts, flavour, cut step, schedule seed). cut_* counters give the histogram of where cuts fell. A share of the cases (counter runs_on_the_real_LocalPool) is built with the library's own `impl Scheduler for futures::executor::LocalSpawner` and run on the real futures LocalPool (run_until_stalled / try_run_one) instead of the harness executor.",
+    "rule": "cases = (random pipeline biased to scheduler-using operators, timed scripts, schedule seed, cut step, unsubscribe() | guard drop). A dry run finds the schedule length and the step of the first terminal; the cut is then placed uniformly before the terminal (5/6) or anywhere (1/6). After the cut the explorer keeps going: remaining events are injected, every pending timer fired, every ready task run. Non-trivial: cut before the terminal while a timer was pending, a task ready, or script events still to come; distinct = hash(pipeline, scripts, flavour, cut step, schedule seed). cut_* counters give the histogram of where cuts fell. A share of the cases (counter runs_on_the_real_LocalPool) is built with the library's own `impl Scheduler for futures::executor::LocalSpawner` and run on the real futures LocalPool (run_until_stalled / try_run_one) instead of the harness executor. In a third of the cases every finalize callback that runs while unsubscribe() is in progress pushes one more item into hot input 0 (user code acting during the teardown; counter cuts_with_finalize_callbacks_emitting_during_teardown).",
     "assumptions": COMMON_ASSUME + [
         "deliveries are judged by their logical begin-stamp against the stamp taken when unsubscribe() returned (single-threaded part: nothing can be in flight at that moment)",
         "the racing-thread part (emitter vs unsubscriber under the baton scheduler) is reported under the same check when present in the evidence (thread_* counters)",
@@ -129,7 +129,7 @@ META["C05"] = {
 
 META["C06"] = {
     "title": "Subjects deliver each item once, in order, to exactly the current subscribers",
-    "rule": "cases = (subject type in {Subject, SubjectThreads, MutRefItemSubject, MutRefErrSubject, MutRefItemErrSubject}, random history of length <= 12 quick / <= 30 thorough over subscribe / unsubscribe-one / next / error / complete / clone / retain / unsubscribe-subject / arm-a-subscribe-from-inside-the-callback (one newcomer, or two newcomers of which the first leaves again before the callback returns), <= 3 regular subscribers plus nested ones). Every history is executed on the real subject and, in lock step, on a sequential multicast model (for the &mut variants the probe mutates the item/error and the model tracks the mutation chain and the value handed back to the emitter). After every step past a terminal/unsubscribe the flags is_finished/is_closed/is_empty/len are compared. Non-trivial: >= 2 subscribers and a join or leave happened between two emissions; distinct = hash(type, history). The SubjectThreads two/three-thread part is run under the baton scheduler (thread_* counters): each thread runs up to 4 of next / subscribe / unsubscribe(k) / retain()+len() / complete / error / unsubscribe-subject on clones of one subject; oracle on call/return stamps (must / must-not receive, exactly once), common order, panic, every call returned.",
+    "rule": "cases = (subject type in {Subject, SubjectThreads, MutRefItemSubject, MutRefErrSubject, MutRefItemErrSubject}, random history of length <= 12 quick / <= 30 thorough over subscribe / unsubscribe-one / next / error / complete / clone / retain / unsubscribe-subject / arm-a-subscribe-from-inside-the-callback (one newcomer, or two newcomers of which the first leaves again before the callback returns), <= 3 regular subscribers plus nested ones). Every history is executed on the real subject and, in lock step, on a sequential multicast model (for the &mut variants the probe mutates the item/error and the model tracks the mutation chain and the value handed back to the emitter). After every step past a terminal/unsubscribe the flags is_finished/is_closed/is_empty/len are compared. Non-trivial: >= 2 subscribers and a join or leave happened between two emissions; distinct = hash(type, history). The SubjectThreads two/three-thread part is run under the baton scheduler (thread_* counters): each thread runs up to 4 of next / subscribe / unsubscribe(k) / retain()+len() / complete / error / unsubscribe-subject on clones of one subject; also is_closed() on a clone of the subject; oracle on call/return stamps (must / must-not receive, exactly once), common order, terminal consistency (no item to anybody once anybody received a terminal; whoever received an item and did not leave receives the terminal; nothing after the subject's own is_closed() returned true), panic, every call returned.",
     "assumptions": COMMON_ASSUME + [
         "len()/is_empty() are only checked where the statement speaks (after a terminal or unsubscribe())",
         "a subscriber that joins after the subject terminated receives nothing (what the statement says: it delivers nothing after a terminal)",
@@ -158,7 +158,7 @@ META["C08"] = {
 
 META["C07"] = {
     "title": "Scheduler-moving operators preserve the source's sequence",
-    "rule": "cases = (one or two of observe_on / delay / delay_at / delay_subscription / delay_subscription_at / subscribe_on in local or _threads form, optionally between transparent operators, timed script of 1..n uniquely numbered items (quick n=5, thorough n=9) with terminal none/complete/error and gaps {0,1,2,5,10,60} ms, delays {0,1,5,50} ms, instants {past, now, +40ms, +1h}, executor class fifo (FIFO task order, equal deadlines woken in creation order) or any-order (any ready task next, equal deadlines in any order), prompt or late schedule, schedule seed). Subscription-moving operators get a cold source. Non-trivial: at least two tasks were ready at once or a delay was pending across an input event; distinct = hash(case). A violation is blamed on the first scheduler operator of the case that shows the same violation kind alone. A share of the cases (counter runs_on_the_real_LocalPool) is built with the library's own `impl Scheduler for futures::executor::LocalSpawner` and run on the real futures LocalPool (run_until_stalled / try_run_one) instead of the harness executor. Thread part (scenarios observe_on_threads[fifo-worker], delay_threads[fifo-worker]): one producer thread emits 1-4 items and an optional terminal into observe_on_threads / delay_threads(0|1ms) while ONE worker thread runs the scheduled tasks in FIFO order and fires the virtual timers (a single-threaded pool on its own thread), optionally with an unsubscribing thread; random/PCT and preemption-bounded systematic schedules at the hooked lock points plus free-running OS threads; whatever is still scheduled when the threads end is run FIFO afterwards; oracle: no invented or duplicated item, source order kept, and without an unsubscribe every item then the terminal arrived. Feedback loops (counter feedback_loop_cases): the subscriber's callback pushes item x+1 into the hot source when x arrives (1..4 quick / 1..8 thorough items), through observe_on / delay(0|1ms) alone, stacked and between map / filter / tap, in all three builder flavours; when the loop has run dry the source completes, fails or stays open from outside: every item in order, then the terminal.",
+    "rule": "cases = (one or two of observe_on / delay / delay_at / delay_subscription / delay_subscription_at / subscribe_on in local or _threads form, optionally between transparent operators, timed script of 1..n uniquely numbered items (quick n=5, thorough n=9) with terminal none/complete/error and gaps {0,1,2,5,10,60} ms, delays {0,1,5,50} ms, instants {past, now, +40ms, +1h}, executor class fifo (FIFO task order, equal deadlines woken in creation order) or any-order (any ready task next, equal deadlines in any order), prompt or late schedule, schedule seed). Subscription-moving operators get a cold source. Non-trivial: at least two tasks were ready at once or a delay was pending across an input event; distinct = hash(case). A violation is blamed on the first scheduler operator of the case that shows the same violation kind alone. A share of the cases (counter runs_on_the_real_LocalPool) is built with the library's own `impl Scheduler for futures::executor::LocalSpawner` and run on the real futures LocalPool (run_until_stalled / try_run_one) instead of the harness executor. Thread part (scenarios observe_on_threads[fifo-worker], delay_threads[fifo-worker]): one producer thread emits 1-4 items and an optional terminal into observe_on_threads / delay_threads(0|1ms) while ONE worker thread runs the scheduled tasks in FIFO order and fires the virtual timers (a single-threaded pool on its own thread), optionally with an unsubscribing thread; random/PCT and preemption-bounded systematic schedules at the hooked lock points plus free-running OS threads; whatever is still scheduled when the threads end is run FIFO afterwards; oracle: no invented or duplicated item, source order kept, and without an unsubscribe every item then the terminal arrived. Feedback loops (counter feedback_loop_cases): the subscriber's callback pushes item x+1 into the hot source when x arrives (1..4 quick / 1..8 thorough items), through observe_on / delay(0|1ms) alone, stacked and between map / filter / tap, in all three builder flavours; when the loop has run dry the source completes, fails or stays open from outside: every item in order, then the terminal. Long-lived subscriptions (counter long_lived_subscription_cases): 3-8 bursts of 1-70 items through one observe_on / delay(0|1ms) / delay_at(past) subscription, with everything scheduled run between bursts, then complete / error / nothing. delay_at(now+2ms) with the real clock crossing the instant in the middle of the history (the thread sleeps 4 ms between items; counter delay_at_instant_crossed_mid_history): order and completeness must not depend on which side of the instant an item was produced.",
     "assumptions": COMMON_ASSUME + [
         "item identity by unique ids; 'never earlier' is judged on virtual stamps: delivery >= emission + sum of configured delays; for _at forms the real time the case took (+1 ms) is the tolerance",
         "the any-order executor models a k-worker pool; the real futures ThreadPool is not under the explorer's control",
@@ -214,7 +214,7 @@ META["C20"] = {
 
 META["C16"] = {
     "title": "Ending a stream early retires the producers that feed it",
-    "rule": "cases = (producer in interval(1|5 ms) / from_iter over a counting iterator capped at 1500 pulls / from_stream over an endless self-waking scripted stream, position main or secondary/notifier input of skip_until / take_until / sample / buffer / with_latest_from / merge / zip / combine_latest (hot main input emitting every 3 ms), or inner observable of flat_map / concat_map / merge_all(2) (hot outer emitting exactly one item, so that exactly one inner producer exists when the cutter fires), 0..n intermediate operators, cutter in take / first / first_or / element_at / take_while(_inclusive) / contains / all, scheduler form, task order). A sweep puts every catalogue operator (single-input, two-input with a cold other, flattening, scheduler-using, finalize, share) once in the middle position for every producer; a second sweep (counter ended_from_the_side_cases) ends the stream from the side - merge with of(1) or timer(2ms), take_until(of(1)) or take_until(timer(2ms)) - below an operator that forwards nothing at that point (skip_until(never), filter(false), filter_map(false), skip_while(true), skip(100000), ignore_elements, last, take_last, reduce, count, collect, skip_last(100000), sample(never), buffer(never), debounce(50ms > the producer's period)) for every producer and both scheduler forms; the rest are seeded random chains of depth <= 2 quick / <= 4 thorough. Every case runs on the virtual clock to a 200 ms horizon. Thread part (scenario interval+workers): interval(1ms).take(k) ticking on 1-2 worker threads, ended by take or by an unsubscribing thread; after everything ran until idle no scheduled task and no virtual timer may be left (run-until-idle terminates). A case counts (non-trivial) only if the cutter actually fired; distinct = hash(case).",
+    "rule": "cases = (producer in interval(1|5 ms) / from_iter over a counting iterator capped at 1500 pulls / from_stream over an endless self-waking scripted stream, position main or secondary/notifier input of skip_until / take_until / sample / buffer / with_latest_from / merge / zip / combine_latest (hot main input emitting every 3 ms), or inner observable of flat_map / concat_map / merge_all(2) (hot outer emitting exactly one item, so that exactly one inner producer exists when the cutter fires), 0..n intermediate operators, cutter in take / first / first_or / element_at / take_while(_inclusive) / contains / all, scheduler form, task order). A sweep puts every catalogue operator (single-input, two-input with a cold other, flattening, scheduler-using, finalize, share) once in the middle position for every producer; a second sweep (counter ended_from_the_side_cases) ends the stream from the side - merge with of(1) or timer(2ms), take_until(of(1)) or take_until(timer(2ms)) - below an operator that forwards nothing at that point (skip_until(never), filter(false), filter_map(false), skip_while(true), skip(100000), ignore_elements, last, take_last, reduce, count, collect, skip_last(100000), sample(never), buffer(never), debounce(50ms > the producer's period)) for every producer and both scheduler forms; the rest are seeded random chains of depth <= 2 quick / <= 4 thorough. Every case runs on the virtual clock to a 200 ms horizon. Thread part (scenario interval+workers): interval(1ms).take(k) ticking on 1-2 worker threads, ended by take or by an unsubscribing thread; after everything ran until idle no scheduled task and no virtual timer may be left (run-until-idle terminates). Cases with the producer in the other input of every two-input operator whose main input is `throw` or `empty`, i.e. a stream that is over at subscription time (counter main_input_over_at_subscription_cases). A case counts (non-trivial) only if the cutter actually fired; distinct = hash(case).",
     "assumptions": COMMON_ASSUME + [
         "retired means, measured after the subscriber saw the cutter's terminal: no tick of the producer later than one period after it, and no pending timer / live task at the horizon (interval); at most one more pull (from_iter); at most two more polls and no live task (from_stream)",
         "take(0) is not used as a cutter",
@@ -243,7 +243,7 @@ META["C19"] = {
 
 META["C14"] = {
     "title": "Conversions and completion status report the real outcome and never hang",
-    "rule": "cases = (conversion in to_future / to_stream / complete_status over Subject or SubjectThreads, script of 0..n items (quick n=4, thorough n=6) then complete / error / neither, optionally followed by a post-terminal item, with 0-2 manual polls placed before, between and after the events, polled with a counting waker; optionally another subscriber of the same subject ahead of the conversion, already unsubscribed or still open). After a terminal the future/stream is polled at most twice more per element and must be ready; a poll that returned Pending before the terminal must have been woken by it; complete_status flags are compared after every step with what the probe saw and with the source calls that have returned and wait_for_end is called once the source has terminated. Plus the gate scenarios: a real waiter thread in wait_for_end is stopped at the hooked point of StatusFuture::poll while the producer thread runs complete()/error() (placements: terminal before the wait, inside the hooked window, after the waiter's first poll) x {complete, error}. Plus free-running two-thread races (quick 3000, thorough 300000): a real waiter thread blocks in block_on(to_future) / block_on(to_stream.collect) / a busy poll_next loop on to_stream / wait_for_end on a SubjectThreads while the producing thread emits 0-3 items and a terminal with seeded yields, sleeps and spins (and the hook-point jitter on half of them); the waiter must return (bounded progress: within 20 s of the producer's terminal call having returned) with exactly the modelled outcome. Non-trivial: the source terminated while a poll had returned Pending, or terminated by error; distinct = hash(case).",
+    "rule": "cases = (conversion in to_future / to_stream / complete_status over Subject or SubjectThreads, script of 0..n items (quick n=4, thorough n=6) then complete / error / neither, optionally followed by a post-terminal item, with 0-2 manual polls placed before, between and after the events, polled with a counting waker; optionally another subscriber of the same subject ahead of the conversion, already unsubscribed or still open). After a terminal the future/stream is polled at most twice more per element and must be ready; a poll that returned Pending before the terminal must have been woken by it; complete_status flags are compared after every step with what the probe saw and with the source calls that have returned and wait_for_end is called once the source has terminated. Plus the gate scenarios: a real waiter thread in wait_for_end is stopped at the hooked point of StatusFuture::poll while the producer thread runs complete()/error() (placements: terminal before the wait, inside the hooked window, after the waiter's first poll) x {complete, error}. Plus free-running two-thread races (quick 3000, thorough 300000): a real waiter thread blocks in block_on(to_future) / block_on(to_stream.collect) / a busy poll_next loop on to_stream / wait_for_end on a SubjectThreads while the producing thread emits 0-3 items and a terminal with seeded yields, sleeps and spins (and the hook-point jitter on half of them); the waiter must return (bounded progress: within 20 s of the producer's terminal call having returned) with exactly the modelled outcome. Every manual poll uses a waker of its own; the waker handed over by the most recent pending poll is the one that must be woken. A further battery (counter status_above_an_early_terminator_cases) puts complete_status() above take(0|1|2) over a `create` source driven through its stashed Subscriber / SubscriberThreads (0-3 items then complete / error / nothing): the flags must follow the source's calls and wait_for_end must return once it terminated. Non-trivial: the source terminated while a poll had returned Pending, or terminated by error; distinct = hash(case).",
     "assumptions": COMMON_ASSUME + [
         "for 'items then error' to_future() may resolve to the error or to MultipleValues (the documentation fixes only the pure cases); it must resolve",
         "'never hang' is read as bounded progress: ready within two polls after termination (logical); in the gate scenarios the waiter gets 20 s, and only after the logical witness (waiter reached the hooked point, producer's terminal call returned) exists; no witness + timeout = inconclusive",
@@ -258,7 +258,7 @@ META["C14"] = {
 
 META["C11"] = {
     "title": "publish/connect and share subscribe the source once and multicast",
-    "rule": "cases = (share | share_threads | publish::<Subject>()+fork()/connect(), source hot Subject behind a tap counter | deferred cold synchronous source behind a subscription counter | interval(5ms) on the virtual clock behind a tap counter, history of length <= 10 quick / <= 18 thorough over subscribe(k) / unsubscribe(k) / source-emit / source-complete / connect / one-period tick, k < 3, one subscription per slot). Checked in lock step against a multicast model: who was subscribed at each emission receives it once, in order; the source is not subscribed before connect(); it is subscribed at most once; after the last subscriber's unsubscribe() returned the tap counter no longer moves on later source events (hot) or one period later (interval). Non-trivial: at least two subscribers overlapped and one left before the source ended; distinct = hash(case). Thread part (scenario share_threads[multi]): 2-3 probes subscribed to clones of one hot.share_threads(), 2-3 threads each running up to 4 of next / unsubscribe(k) / subscribe (never re-joining after the count reached zero) plus an occasional terminal, scheduled at the hooked lock points (random, PCT and preemption-bounded systematic schedules) and then free-running on OS threads with seeded jitter; oracle over call/return stamps: a subscriber whose subscribe() returned before next(v) was called and whose unsubscribe() was not called before it returned receives v exactly once, all subscribers agree on one order, nothing begins on a probe after its unsubscribe() returned, every call returns.",
+    "rule": "cases = (share | share_threads | publish::<Subject>()+fork()/connect(), source hot Subject behind a tap counter | deferred cold synchronous source behind a subscription counter | interval(5ms) on the virtual clock behind a tap counter, history of length <= 10 quick / <= 18 thorough over subscribe(k) / unsubscribe(k) / source-emit / source-complete / connect / one-period tick, k < 3, one subscription per slot). Checked in lock step against a multicast model: who was subscribed at each emission receives it once, in order; the source is not subscribed before connect(); it is subscribed at most once; after the last subscriber's unsubscribe() returned the tap counter no longer moves on later source events (hot) or one period later (interval). Non-trivial: at least two subscribers overlapped and one left before the source ended; distinct = hash(case). Thread part (scenario share_threads[multi]): 2-3 probes subscribed to clones of one hot.share_threads(), 2-3 threads each running up to 4 of next / unsubscribe(k) / subscribe (never re-joining after the count reached zero) plus an occasional terminal, scheduled at the hooked lock points (random, PCT and preemption-bounded systematic schedules) and then free-running on OS threads with seeded jitter; oracle over call/return stamps: a subscriber whose subscribe() returned before next(v) was called and whose unsubscribe() was not called before it returned receives v exactly once, all subscribers agree on one order, nothing begins on a probe after its unsubscribe() returned, every call returns. Subscribers also join through take(1) (finishing by themselves after one item while keeping their handle) and through start_with([0]).first() (finished before the share itself is subscribed).",
     "assumptions": COMMON_ASSUME + [
         "whether a share re-connects when somebody joins after its subscriber count dropped to zero is unspecified; such re-joins are generated for hot sources only (counter histories_with_a_rejoin_after_everybody_left) and the re-joined subscriber is owed exactly the emissions the shared source is seen to make (upstream tap), nothing is demanded about terminals after a re-join; thread scenarios never re-join",
         "a cold synchronous source emits during the connecting subscription: only subscribers present at that moment receive those items",
@@ -285,7 +285,7 @@ META["C13"] = {
 
 META["C17"] = {
     "title": "is_closed() is sound and composites tear down late additions",
-    "rule": "two batteries. (a) composite histories: random histories of length <= 8 quick / <= 13 thorough over append / append-nested-composite / clone / unsubscribe / retain / sample on MultiSubscription and MultiSubscriptionThreads with tracked children: every child appended before unsubscribe() is unsubscribed exactly once, every remaining clone reports closed afterwards, a child appended afterwards has been unsubscribed by the time append returns. (b) random pipelines over the whole catalogue (so that unit, Subscriber, pair, composite, task-handle, ref-count, finalizer and boxed subscriptions all occur), is_closed() of the returned subscription sampled before every explorer step: once it returned true no notification may be delivered through that subscription and it may never return false again. (c) a direct battery on ZipSubscription (all four closed/open combinations of its halves), SubscriptionGuard, MutRc<Option<S>> handle clones and BoxSubscription with counting children. (d) MultiSubscriptionThreads under the lock-point scheduler: unsubscribe() on one thread, 1-3 append() calls on a second, is_closed() samples on a third, over 0-2 children appended up front; afterwards the composite reports closed, so every child must have been unsubscribed exactly once, and is_closed() may not return to false once the composite holds an open child. (f) a thread asking is_closed() six times on the subscription of hot.observe_on_threads / delay_threads(0) / debounce / buffer_with_time while the source thread emits 0-2 items and completes or fails and a worker thread runs the scheduled tasks (counter is_closed_sampling_races): after a sample returned true nothing may begin on the probe and no later sample may be false. (e) unsubscribe() racing the worker thread that runs the scheduled task of observe_on_threads / delay_threads / subscribe_on (task handles): nothing may begin on the probe after unsubscribe() returned. Histories in (a) also contain children whose own unsubscribe() appends one more child to the composite (an append in the middle of the teardown, counter histories_with_an_append_during_teardown): it must not be left running. subscription_types_covered lists every subscription type that occurred. Non-trivial: (a) an append fell after the unsubscribe; (b) is_closed() was sampled both false and true in the run; distinct = hash(case).",
+    "rule": "two batteries. (a) composite histories: random histories of length <= 8 quick / <= 13 thorough over append / append-nested-composite / clone / unsubscribe / retain / sample on MultiSubscription and MultiSubscriptionThreads with tracked children: every child appended before unsubscribe() is unsubscribed exactly once, every remaining clone reports closed afterwards, a child appended afterwards has been unsubscribed by the time append returns. (b) random pipelines over the whole catalogue (so that unit, Subscriber, pair, composite, task-handle, ref-count, finalizer and boxed subscriptions all occur), is_closed() of the returned subscription sampled before every explorer step: once it returned true no notification may be delivered through that subscription and it may never return false again. (c) a direct battery on ZipSubscription (all four closed/open combinations of its halves), SubscriptionGuard, MutRc<Option<S>> handle clones and BoxSubscription with counting children. (d) MultiSubscriptionThreads under the lock-point scheduler: unsubscribe() on one thread, 1-3 append() calls on a second, is_closed() samples on a third, over 0-2 children appended up front; afterwards the composite reports closed, so every child must have been unsubscribed exactly once, and is_closed() may not return to false once the composite holds an open child. (f) a thread asking is_closed() six times on the subscription of hot.observe_on_threads / delay_threads(0) / debounce / buffer_with_time while the source thread emits 0-2 items and completes or fails and a worker thread runs the scheduled tasks (counter is_closed_sampling_races): after a sample returned true nothing may begin on the probe and no later sample may be false. (g) is_closed() on a clone of a SubjectThreads from one thread while others emit, terminate, subscribe and unsubscribe: nothing is delivered to anybody after it returned true. (e) unsubscribe() racing the worker thread that runs the scheduled task of observe_on_threads / delay_threads / subscribe_on / debounce / throttle_time / buffer_with_time / buffer_with_count_and_time / sample(interval) (task handles): nothing may begin on the probe after unsubscribe() returned. Histories in (a) also contain children whose own unsubscribe() appends one more child to the composite (an append in the middle of the teardown, counter histories_with_an_append_during_teardown): it must not be left running. subscription_types_covered lists every subscription type that occurred. Non-trivial: (a) an append fell after the unsubscribe; (b) is_closed() was sampled both false and true in the run; distinct = hash(case).",
     "assumptions": COMMON_ASSUME + [
         "`false` is always acceptable (the property is one-directional)",
         "a live composite without children answers is_closed() == true (vacuously: nothing can be delivered through it) until its first child is appended; this is how delay/observe_on report closed after their last task, and it is not treated as 'returned true, later false'",
